@@ -148,13 +148,14 @@ pub fn run_zoom_dir(a: &Args) -> Result<(), String> {
     let n: u32 = a.get("n").map(|s| s.parse().unwrap()).unwrap_or(11);
     let multipass = a.get("multipass").map(|s| s == "1").unwrap_or(false);
     let vals: Vec<(u32, u32, f32)> = (0..50).map(|i| (i * 10, i * 10 + 10, 1.5)).collect();
-    let sizes: Vec<u32> = (1..=n).map(|k| 2 * k).collect();
+    let sizes: Vec<u32> = match a.get("sizes") { Some(s) => s.split(',').map(|x| x.parse().unwrap()).collect(), None => (1..=n).map(|k| 2 * k).collect() };
     let tf = write_bw(&vals, 1000, 4, 4, Some(sizes.clone()), false, multipass)?;
     let mut r = BigWigRead::open_file(tf.path()).map_err(|e| format!("open: {}", e))?;
     let levels: Vec<u32> = r.info().zoom_headers.iter().map(|z| z.reduction_level).collect();
     for (i, l) in levels.iter().enumerate() {
         if !sizes.contains(l) { return Err(format!("zoom directory entry {} has reduction level {} which was never requested (requested {:?}, directory {:?})", i, l, sizes, levels)); }
     }
+    for w in levels.windows(2) { if w[0] >= w[1] { return Err(format!("zoom levels are not listed with strictly increasing resolution: {:?} (requested {:?})", levels, sizes)); } }
     let s = r.get_summary().map_err(|e| e.to_string())?;
     if s.bases_covered != 500 || (s.sum - 750.0).abs() > 1e-9 { return Err(format!("total summary corrupted: bases_covered={} sum={} (expected 500, 750) with {} zoom sizes", s.bases_covered, s.sum, n)); }
     for l in levels {
@@ -165,3 +166,49 @@ pub fn run_zoom_dir(a: &Args) -> Result<(), String> {
     Ok(())
 }
 pub fn gen_zoom_dir(r: &mut Rng) -> String { format!("n={} multipass={}", r.range(1, 14), r.below(2)) }
+
+/// C15 (merge tool): merging bigWigs yields, at every base of every chromosome from position 0, the sum of
+/// the inputs, and the tool accepts the output names it documents.
+/// args: a=s,e,v;...  b=s,e,v;...  out=<file name suffix, e.g. .bedGraph>  [otype=bedgraph]
+pub fn run_merge(a: &Args) -> Result<(), String> {
+    use bigtools::utils::cli::bigwigmerge::{bigwigmerge, BigWigMergeArgs};
+    use bigtools::utils::cli::BBIWriteArgs;
+    let va = parse_vals(a.get("a").ok_or("a")?);
+    let vb = parse_vals(a.get("b").ok_or("b")?);
+    let len = va.iter().chain(vb.iter()).map(|v| v.1).max().unwrap_or(0) + 10;
+    let fa = write_bw(&va, len, 4, 4, None, false, false)?;
+    let fb = write_bw(&vb, len, 4, 4, None, false, false)?;
+    let suffix = a.get("out").cloned().unwrap_or_else(|| ".bedGraph".to_string());
+    let dir = tempfile::tempdir().map_err(|e| e.to_string())?;
+    let out = dir.path().join(format!("merged{}", suffix));
+    let args = BigWigMergeArgs {
+        output: out.to_string_lossy().to_string(),
+        bigwig: vec![fa.path().to_string_lossy().to_string(), fb.path().to_string_lossy().to_string()],
+        list: vec![], threshold: 0.0, adjust: None, clip: None, max: false,
+        output_type: a.get("otype").cloned(),
+        write_args: BBIWriteArgs { nthreads: 1, nzooms: 2, zooms: None, uncompressed: true, sorted: "all".to_string(), block_size: 4, items_per_slot: 4, inmemory: true },
+    };
+    bigwigmerge(args).map_err(|e| format!("bigwigmerge failed: {}", e))?;
+    if !out.exists() { return Err(format!("output name merged{} (documented as accepted) was not recognised: no output written", suffix)); }
+    // per-base expected sums
+    let mut want = vec![0f64; len as usize];
+    for v in va.iter().chain(vb.iter()) { for p in v.0..v.1 { want[p as usize] += v.2 as f64; } }
+    let mut got = vec![0f64; len as usize];
+    let is_bw = suffix.to_lowercase().ends_with(".bw") || suffix.to_lowercase().ends_with(".bigwig") || a.get("otype").map(|t| t == "bigwig").unwrap_or(false);
+    if is_bw {
+        let mut r = BigWigRead::open_file(&out).map_err(|e| format!("open merged: {}", e))?;
+        for v in r.get_interval("chr1", 0, len).map_err(|e| e.to_string())? { let v = v.map_err(|e| e.to_string())?; for p in v.start..v.end { got[p as usize] += v.value as f64; } }
+    } else {
+        let text = std::fs::read_to_string(&out).map_err(|e| e.to_string())?;
+        for l in text.lines() { let f: Vec<&str> = l.split('\t').collect(); if f.len() < 4 { continue; } let (s, e, x): (u32, u32, f64) = (f[1].parse().unwrap(), f[2].parse().unwrap(), f[3].parse().unwrap()); for p in s..e { got[p as usize] += x; } }
+    }
+    for p in 0..len as usize {
+        if (got[p] - want[p]).abs() > 1e-4 { return Err(format!("base {}: merged value {} but the inputs sum to {}", p, got[p], want[p])); }
+    }
+    Ok(())
+}
+pub fn gen_merge(r: &mut Rng) -> String {
+    let a = gen_vals(r, 5, 10, 12); let b = gen_vals(r, 5, 10, 12);
+    let out = r.pick(&[".bedGraph", ".bw", ".bigWig", ".bedgraph"]);
+    format!("out={} a={} b={}", out, fmt_vals(&a), fmt_vals(&b))
+}
